@@ -144,7 +144,7 @@ LF_TIE = (" The model is tied to the source on every run: the unmodified headers
 
 def register(PROPS, COMPONENTS):
     COMPONENTS["lockfam"] = dict(client="lockfam", driver="lockfam", directed_runs=2, quick_runs=1200, thorough_runs=40000,
-                                 oracle=oracle_lockfam,
+                                 oracle=oracle_lockfam, shrinkable=True,   # every op sequence is a valid terminating script
                                  cov_headers=["gmlc/libguarded/handles.hpp", "gmlc/libguarded/guarded.hpp",
                                               "gmlc/libguarded/guarded_opt.hpp", "gmlc/libguarded/shared_guarded.hpp",
                                               "gmlc/libguarded/shared_guarded_opt.hpp", "gmlc/libguarded/ordered_guarded.hpp",
